@@ -710,7 +710,8 @@ log(new C(p(3, 1), undefined, "x"));`, ext, sup)
 	})
 }
 
-var subs = map[string]vdrv.ReplayFunc{"erase": replayErase, "same": replaySame, "tsruntime": replayRun}
+var subs = map[string]vdrv.ReplayFunc{"erase": replayErase, "same": replaySame, "tsruntime": replayRun,
+	"importeq": replayImportEq, "enumx": replayEnumX, "fields": replayFields, "decor": replayDecor}
 
 func setup(t *testing.T) {
 	H = vdrv.New("C06")
@@ -730,6 +731,10 @@ func TestCheck(t *testing.T) {
 	H.Sub(t, "erase", runErase)
 	H.Sub(t, "same", runSame)
 	H.Sub(t, "tsruntime", runTSRuntime)
+	H.Sub(t, "importeq", runImportEq)
+	H.Sub(t, "enumx", runEnumX)
+	H.Sub(t, "fields", runFields)
+	H.Sub(t, "decor", runDecor)
 	complete = true
 }
 
